@@ -422,6 +422,39 @@ impl Regex {
         Ok(Regex { cr })
     }
 
+    /// Verification hook: the kind of start predicate (prefilter) chosen for this regex.
+    #[cfg(feature = "verif-hooks")]
+    #[doc(hidden)]
+    pub fn verif_start_predicate_kind(&self) -> &'static str {
+        use crate::insn::StartPredicate;
+        match &self.cr.start_pred {
+            StartPredicate::Arbitrary => "Arbitrary",
+            StartPredicate::ByteSet1(_) => "ByteSet1",
+            StartPredicate::ByteSet2(_) => "ByteSet2",
+            StartPredicate::ByteSet3(_) => "ByteSet3",
+            StartPredicate::ByteSeq(_) => "ByteSeq",
+            StartPredicate::ByteBracket(_) => "ByteBracket",
+            StartPredicate::StartAnchored => "StartAnchored",
+        }
+    }
+
+    /// Verification hook: the same program with no start predicate, so that
+    /// every start offset is attempted in increasing order.
+    #[cfg(feature = "verif-hooks")]
+    #[doc(hidden)]
+    pub fn verif_with_arbitrary_start_predicate(&self) -> Regex {
+        let mut cr = self.cr.clone();
+        cr.start_pred = crate::insn::StartPredicate::Arbitrary;
+        Regex { cr }
+    }
+
+    /// Verification hook: number of bytecode instructions.
+    #[cfg(feature = "verif-hooks")]
+    #[doc(hidden)]
+    pub fn verif_insn_count(&self) -> usize {
+        self.cr.insns.len()
+    }
+
     /// Searches `text` to find the first match.
     #[inline]
     pub fn find(&self, text: &str) -> Option<Match> {
